@@ -132,6 +132,16 @@ CHECKS["C26"] = dict(
    design="5/C26", technique="Coq round-trip proof of the numeral codec + feasibility corollaries; exact-reference tests of returned values",
    note="Trusted: Coq kernel; Model/Numeral.v hand-written (digit lists); Z3 truthful. Floats and strings of this property are not covered.")
 
+CHECKS["C04"] = dict(
+   text="Machine-checked proof (Coq): every concrete folding function generated from backend_concrete/bv.py (25 binary, 2 unary, extension, "
+        "extraction, concatenation) returns a value or the documented division-by-zero error for ALL well-formed operands of ALL widths below "
+        "the resource limit -- in particular for shift/rotate amounts up to 2^width-1 -- and never an unrelated Python exception "
+        "(C04_binary_total, C04_unary_total, C04_resize_total, C04_concat_total; corollaries of the C01 specifications; bv.py is re-translated on "
+        "every run). That the simplifiers, operations.op and Base.__new__ do not raise is NOT proved: boundary-constant programs and rule "
+        "templates are built on the real claripy under time and memory limits, and the construction model must end in the same class (testing).",
+   design="5/C04", technique="Coq totality corollaries over the translated concrete backend; boundary-constant program fuzzing with class correspondence",
+   note="Trusted: Coq kernel; tools/py2coq.py. Floats, strings and NaN/metacharacter inputs of this property are not covered.")
+
 REASONS = {}
 DEFAULT_REASON = "not claimed yet: its Coq model and correspondence harness are not built in this snapshot (see DESIGN.md section 10 for the order); no other technique is substituted"
 
